@@ -129,6 +129,86 @@ def same_resource_prefix(op_a: int, id_a: int, op_b: int, id_b: int) -> bool:
     return True
 
 
+
+# ---------------------------------------------------------------------------------------------------------------
+# "same resource": the path of the earlier request is a prefix of the later one with equal identifiers - equal as they travel on the wire
+# (an id extracted from a JSON body as 7 and one cut out of a Location header as "7" name the same resource)
+
+TEMPLATES = [("/users", []), ("/users/{id}", ["id"]), ("/users/{userId}", ["userId"]), ("/orders/{id}", ["id"]), ("/users/{id}/posts/{pid}", ["id", "pid"]), ("/user/{id}", ["id"])]
+ID_FORMS = [7, "7", 8, "0"]
+
+
+def prefix_identity(t1: int, t2: int, a1: int, a2: int, b1: int, b2: int) -> bool:
+    """
+    pre: t1 == param(0) % len(TEMPLATES) and 0 <= t2 < len(TEMPLATES) and all(0 <= v < len(ID_FORMS) for v in (a1, b1)) and all(0 <= v <= 1 for v in (a2, b2))
+    post: _
+    """
+    (lv, lnames), (rv, rnames) = pick(TEMPLATES, t1), pick(TEMPLATES, t2)
+    lvals = [pick(ID_FORMS, a1), pick(ID_FORMS, a2)]
+    rvals = [pick(ID_FORMS, b1), pick(ID_FORMS, b2)]
+    lhs = oc.ResourcePath(lv, {n: v for n, v in zip(lnames, lvals)})
+    rhs = oc.ResourcePath(rv, {n: v for n, v in zip(rnames, rvals)})
+    lparts, rparts = lv.split("/"), rv.split("/")
+    want = len(lparts) <= len(rparts)
+    if want:
+        li = ri = 0
+        for left, right in zip(lparts, rparts):
+            lvar, rvar = left.startswith("{"), right.startswith("{")
+            if lvar and rvar:
+                if str(lvals[li]) != str(rvals[ri]):
+                    want = False
+            elif lvar != rvar or left.rstrip("s") != right.rstrip("s"):
+                want = False
+            li += lvar
+            ri += rvar
+    return oc._is_prefix_operation(lhs, rhs) == want
+
+
+
+# ---------------------------------------------------------------------------------------------------------------
+# "not available after creation" is claimed only for a request whose parameters ALL came from a link (optional ones included)
+
+RAW_OPT = {"openapi": "3.0.2", "info": {"title": "t", "version": "1"}, "paths": {
+    "/items": {"post": dict(_OK)},
+    "/items/{id}": {"get": dict(_OK, parameters=[_param("id"), {"name": "expand", "in": "query", "schema": {"type": "string"}},
+                                                 {"name": "X-Mode", "in": "header", "schema": {"type": "string"}}])}}}
+SCHEMA_OPT = schemathesis.openapi.from_dict(RAW_OPT)
+OPT_POST, OPT_GET = SCHEMA_OPT["/items"]["POST"], SCHEMA_OPT["/items/{id}"]["GET"]
+list(OPT_GET.iter_parameters())
+
+
+def availability_optional(id_linked: bool, expand_linked: bool, mode_linked: bool, status: int, created: int) -> bool:
+    """
+    pre: 400 <= status <= 499 and created in (200, 201, 302, 404, 500)
+    post: _
+    """
+    recorder = ScenarioRecorder(label="t")
+    root = mk_case(OPT_POST, "c0")
+    recorder.cases["c0"] = CaseNode(value=root, parent_id=None, transition=None)
+    recorder.interactions["c0"] = mk_interaction(response(created))
+    meta = CaseMetadata(generation=GenerationInfo(time=0.0, mode=GenerationMode.POSITIVE), phase=PhaseInfo.generate(),
+                        components={ComponentKind.PATH_PARAMETERS: ComponentInfo(mode=GenerationMode.POSITIVE), ComponentKind.QUERY: ComponentInfo(mode=GenerationMode.POSITIVE),
+                                    ComponentKind.HEADERS: ComponentInfo(mode=GenerationMode.POSITIVE)})
+    case = mk_case(OPT_GET, "c1", path_parameters={"id": -7}, query={"expand": "generated"}, headers={"X-Mode": "generated"}, meta=meta)
+    if id_linked:
+        case.path_parameters = {"id": 5}
+    if expand_linked:
+        case.query = {"expand": "linked"}
+    if mode_linked:
+        case.headers = {"X-Mode": "linked"}
+    recorder.cases["c1"] = CaseNode(value=case, parent_id="c0", transition=None)
+    recorder.interactions["c1"] = mk_interaction(response(status))
+    ctx = CheckContext(override=None, auth=None, headers=None, config={}, transport_kwargs=None, recorder=recorder)
+    try:
+        oc.ensure_resource_availability(ctx, response(status), case)
+        reported = False
+    except Failure:
+        reported = True
+    # a generated (not link-supplied) value anywhere in the request may itself explain the 4xx: nothing is claimed then
+    expected = 200 <= created < 400 and id_linked and expand_linked and mode_linked
+    return reported == expected
+
+
 def _valid(ops, ids, parents, statuses) -> bool:
     return (
         all(0 <= o < NOPS for o in ops)
@@ -266,6 +346,13 @@ _SYM = "operation index, id, parent pointer of every case; every response status
 _ST = ["http.client.responses.get returns its default (message formatting only)", "Response.status_code is an int-like box: comparisons/arithmetic act on the symbolic int, text formatting is stubbed", "cases and responses built directly, no transport"]
 _OUT = ["histories longer than the bound", "cases derived inside checks", "string identifiers that are prefixes of each other"]
 OBLIGATIONS = [
+    Ob(fn="availability_optional", clause="'not available after creation' is reported only for a request whose parameters all came from a link: a generated value in an optional query or header parameter suppresses the claim just like one in a required parameter",
+       timeout=300, functions=["schemathesis.specs.openapi.checks.ensure_resource_availability", "schemathesis.generation.overrides.Override.from_components", "schemathesis.generation.overrides.get_component_diff"],
+       symbolic="for the path id, an optional query and an optional header parameter: generated or link-supplied; the 4xx status; the status of the creating POST (5 values)", bounds="2^3 origins x 100 statuses x 5"),
+    Ob(fn="prefix_identity", clause="two requests address the same resource when the earlier path is a prefix of the later one with identifiers equal as sent on the wire (7 and '7' are the same id), whether or not the templates are spelled identically",
+       timeout=300, params=range(6), functions=["schemathesis.specs.openapi.checks._is_prefix_operation", "schemathesis.specs.openapi.checks.ResourcePath.get"],
+       symbolic="two path templates out of 6 (same / different variable names, nested, singular spelling, other collection) and first identifier of each side out of 4 forms (7, '7', 8, '0'), second out of 2",
+       bounds="6 x 6 templates x 4 x 4 x 2 x 2 identifier forms"),
     Ob(fn="use_after_free_2", clause=_UAF, timeout={"quick": 90, "thorough": 300}, params={"quick": _PQ, "thorough": _PT}, param_names=_NAMES,
        functions=_FUNCS, symbolic=_SYM, bounds=_BOUNDS["quick"], stubs=_ST, outside=_OUT),
     Ob(fn="resource_availability_2", clause=_AVL, timeout={"quick": 90, "thorough": 300}, params={"quick": _PQ, "thorough": _PT},
